@@ -17,7 +17,8 @@
 //!
 //!   refp <field> <hasher> <q.b.g.x.f.r> <trace seed> <AirDesc line> <trace>
 //!       (trace: columns separated by `/`, canonical cell values separated by `,`) the REAL prover
-//!       (non-concurrent build) on exactly this main segment: the bytes of `proof.to_bytes()` in hex, or
+//!       (non-concurrent build) on exactly this main segment: the bytes of `proof.to_bytes()` in hex followed by
+//!       ` v=ok|rejected` (the real verifier on that proof; the model: `refVerify` on `refProve`'s bytes), or
 //!       `panic` / `err:<kind>`. The Lean driver runs the executable reference prover `refProve`
 //!       (Winter/Model/RefProver.lean) on the same description, trace and options and must print the SAME
 //!       bytes (modelled: f64 with Rp64_256 / RpJive64_256, f62 with Rp62_248, no auxiliary segment).
@@ -339,11 +340,12 @@ fn exec_refp(t: &[&str]) -> Outcome {
         },
     };
     let bytes = proof.to_bytes();
-    o.out = hex(&bytes);
-    // the independent oracle: the real verifier accepts the honest proof, also after the round trip
+    // the real verifier on the honest proof (the model runs `refVerify` on its own bytes: `v=`), and after the round trip
+    let acceptable = AcceptableOptions::OptionSet(vec![op.opts.to_options()]);
+    let v1 = guarded(|| verify(&desc, op.field, op.hash, &pubs, proof, &acceptable));
+    o.out = format!("{} v={}", hex(&bytes), if matches!(v1, Ok(Ok(()))) { "ok" } else { "rejected" });
     if adm {
-        let acceptable = AcceptableOptions::OptionSet(vec![op.opts.to_options()]);
-        match guarded(|| verify(&desc, op.field, op.hash, &pubs, proof, &acceptable)) {
+        match v1 {
             Ok(Ok(())) => {},
             Ok(Err(e)) => o = o.fail(format!("c01.refp.verify.err.{}", verifier_error_kind(&e)), format!("{:?}", e)),
             Err(info) => o = o.fail(format!("c01.refp.verify.panic@{}", panic_file(&info)), format!("panic at {}", info)),
@@ -364,7 +366,8 @@ fn exec_refp(t: &[&str]) -> Outcome {
 /// constraint degree), more than one exemption with a junk tail, degrees 1..5, 1..4 columns, degenerate columns
 fn refp_descs(rng: &mut Rng, count: usize, max_log_len: u32) -> Vec<AirDesc> {
     let mut v: Vec<AirDesc> = vec![];
-    for n in [8usize, 16, 32] {
+    let lens: &[usize] = if max_log_len <= 4 { &[8, 16] } else { &[8, 16, 32] };
+    for &n in lens {
         v.push(power_desc(n, 2, 1, 0));
         v.push(power_desc(n, 3, 2, 2));
         v.push(feature_desc(n, 2, 2, 1, vec![3, 5, 3, 5], false, 0, false, 0));
@@ -432,9 +435,10 @@ fn refp_descs(rng: &mut Rng, count: usize, max_log_len: u32) -> Vec<AirDesc> {
 fn refp_ops(rng: &mut Rng, tier: Tier, emit: &mut dyn FnMut(String)) {
     let quick = tier == Tier::Quick;
     // the Lean model of the Rescue permutation costs about 15 ms per call and a proof needs about 4.5 calls per
-    // LDE point: the LDE domains are kept at 16..64 points in the quick tier (a few of 128)
-    let (count, max_log) = if quick { (230usize, 4u32) } else { (700, 5) };
-    let sizes: &[usize] = if quick { &[16, 16, 32, 16, 32, 16, 32, 64, 16, 32, 16, 32, 16, 64, 32, 16] } else { &[16, 32, 64, 32, 128, 64, 32, 256, 64, 128] };
+    // LDE point: the quick tier keeps to a few dozen configurations with trace length 8..16 and LDE domains of
+    // 16..32 points (a few of 64); the volume is in the thorough tier
+    let (count, max_log) = if quick { (56usize, 4u32) } else { (700, 5) };
+    let sizes: &[usize] = if quick { &[16, 16, 32, 16, 32, 16, 16, 64, 16, 32, 16, 32] } else { &[16, 32, 64, 32, 128, 64, 32, 256, 64, 128] };
     let descs = refp_descs(rng, count, max_log);
     for (i, d) in descs.iter().enumerate() {
         let (field, hash) = match i % 10 {
@@ -450,7 +454,7 @@ fn refp_ops(rng: &mut Rng, tier: Tier, emit: &mut dyn FnMut(String)) {
         } else {
             d.clone()
         };
-        let want = if quick && i % 53 == 52 { 128 } else { sizes[i % sizes.len()] };
+        let want = sizes[i % sizes.len()];
         let lim = want.max(d.trace_len * d.min_blowup());
         let mut o = random_opts(rng, &d, field, lim);
         // few queries (the openings are the cheap part), grinding on a good third, every extension degree
